@@ -70,6 +70,30 @@ CHECKS = {
    note='Host close/closedir outcomes, allocation failure and descriptor exhaustion are not considered; imports that are '
         'unimplemented upstream (unconditional ENOSYS) are listed in the evidence but not decided.',
    ref='DESIGN.md 4/C13'),
+ 'C14': dict(
+   technique='taint rule by partial evaluation (source guest pointer, sanitizer resolvePath, sinks native path calls); linear-form bound entailment for resolvePath; must-precede rule on readdir path summaries; witx dirent layout',
+   text='For the eight path_* imports of both generations the native path argument is a copy of resolvePath\'s output, resolution is anchored '
+        'at the stored descriptor path, a failed resolution stops before any host call, the host operation is the one the import names and '
+        'its failure is reported. resolvePath is summarised with symbolic strlen(directory) and pathLength: every memcpy/store is bounded, '
+        'coefficient-wise, by a guard of its path (so an off-by-one in either guard is reported with the offending index expression), the '
+        'empty path is rejected, absolute paths are copied unchanged, a separator is inserted iff needed; descriptor paths satisfy 0 < len < PATH_MAX. '
+        'fd_readdir, for {stream open, closed} x {cookie 0, unknown}: the first readdir() is always preceded by opendir/seekdir/rewinddir; dirent '
+        'fields are stored at the witx offsets with telldir/inode/strlen values, the name follows the record, bufused = buflen signals a full buffer.',
+   note='Host directory semantics (stable telldir cookies), completeness of a listing across calls and symlink-follow flags are not decided. '
+        'The unbounded strcat in the lstat fallback of fd_readdir is recorded as a note (not replayable here).',
+   ref='DESIGN.md 4/C14'),
+ 'C15': dict(
+   technique='path summaries by partial evaluation with symbolic strings (linear forms over strlen), host clock macros read at run time, guard-bounded API size limits, read-before-free ordering on traced records',
+   text='args/environ: for vectors of 0, 1 and 3 symbolic strings the size call reports the count and the sum of strlen+1, the copy call '
+        'copies string k with its NUL to buffer + the sum of the previous sizes and stores that address at pointers + 4k. clock_time_get maps '
+        'ids 0-3 to the same-named host clocks, rejects other ids with EINVAL before any native call and stores sec*10^9+nsec computed in '
+        '64 bits as u64. Every getentropy() length is bounded by 256 through a guard of its path and the chunks add up to the request. '
+        'proc_exit reaches exit(code). thread-spawn: counter starts at 1, one atomic fetch-add, negative result and no allocation without the '
+        'wasi_thread_start export, start record = {newChild(instance), arg, id, export}, the thread body reads all fields before the single '
+        'free and calls start exactly once.',
+   note='Clock monotonicity, randomness quality, that exit() terminates and thread scheduling are not decided; the /dev/random fallback '
+        '(HAS_GETENTROPY=0 builds) is not analysed in the quick tier.',
+   ref='DESIGN.md 4/C15'),
  'C16': dict(
    technique='finite table check: partial evaluation dispatch -> template -> runtime function path summary (one __atomic builtin, width, order, wrapping, zero-extension)',
    text='All 63 atomic access flavours (0xFE 0x10-0x4E) are followed from the sub-opcode through the emitter to the runtime function; '
